@@ -1,6 +1,6 @@
 # configuration of ./check C16 (see checklib/props.py)
 PROP = {'level': 'proof',
- 'facts': ['c16TypeCode', 'c16TypeSize', 'c16Flags', 'c16Format', 'c16ValueNumber', 'c16TypeTokens', 'c16FlagTokens', 'c16FormatTokens', 'c16ValueTokens'],
+ 'facts': ['c16TypeCode', 'c16TypeSize', 'c16Flags', 'c16Format', 'c16ValueNumber', 'c16Oid', 'c16OidTokens', 'c16TypeTokens', 'c16FlagTokens', 'c16FormatTokens', 'c16ValueTokens'],
  'rule': 'Random abstract dictionaries (all 17 types and octets[n], every flag combination and order, dotted OIDs up to max int64, decimal and '
          '0x-hex values, vendor formats, several blocks per vendor) x random layouts (blank/tab runs, trailing comments, blank / '
          'whitespace-only / comment lines, LF and CRLF, with and without final newline, per-letter case of type names); every single-fault '
